@@ -8,7 +8,7 @@
 (*            in between: Either.                                                              *)
 (*   MATCHER  operational transcription of urllib3's _dnsname_match / _ipaddress_match /        *)
 (*            match_hostname / connection._match_hostname and of ssl_.assert_fingerprint.       *)
-(*            MATCHER is parametrised by a set D of named deviations (D13 "ABORT", D14 "ACECASE")*)
+(*            MATCHER is parametrised by a set D of named deviations (D13 "ABORT", D15 "ACECASE")*)
 (*            of the code from the design the statement asks for; D = {} is the repaired design, *)
 (*            D = KnownDefects the code as it is.                                               *)
 (* TLC checks on three small state machines (pairs, lists, pins) that the repaired MATCHER      *)
@@ -113,7 +113,7 @@ DnsClass(dn, h) == IF DnsMustAccept(dn, h) THEN "must" ELSE IF DnsMustReject(dn,
 (* labels as the entry and each label must match its own fragment.            *)
 
 \* D names the deviations of the code from the design the statement asks for that are kept in MATCHER:
-\*   "ACECASE" (D14) the IDN test is str.startswith("xn--"), case-sensitive, so "XN--*" is an ordinary label
+\*   "ACECASE" (D15) the IDN test is str.startswith("xn--"), case-sensitive, so "XN--*" is an ordinary label
 \*   "ABORT"   (D13) CertificateError for a multi-wildcard entry leaves the SAN loop (list level)
 MaxWildcards == 1
 XnTest(l, D) == IF "ACECASE" \in D THEN HasPrefixXN(l) ELSE HasPrefixXN(LowerL(l))
@@ -131,7 +131,7 @@ DnsnameMatchD(dn, h, D) ==
                     /\ \A i \in 2..Len(dn) : LowerL(dn[i]) = LowerL(h[i])             \* re.escape(frag), IGNORECASE
                  THEN "T" ELSE "F"
 DnsnameMatch(dn, h) == DnsnameMatchD(dn, h, KnownDefects)          \* the code as it is
-\* the input class of D14: the repaired matcher refuses, the case-sensitive prefix test alone explains the match
+\* the input class of D15: the repaired matcher refuses, the case-sensitive prefix test alone explains the match
 AceCase(dn, h) == DnsnameMatchD(dn, h, {}) # "T" /\ DnsnameMatchD(dn, h, {"ACECASE"}) = "T"
 
 -----------------------------------------------------------------------------
